@@ -252,6 +252,21 @@ CHECKS = {
         technique="TLA+ reference mapping checked against the language by TLC; TLC-computed expectations replayed through generate/print/parse; text trace-validated by TLC",
         design="4/C13",
     ),
+    "C07": dict(
+        specs=["Session.tla"],
+        text="Session.tla composes a beacon (check-in, callback), a team-server peer (task / empty response, POST reply), unrelated "
+        "requests, the wire and the traffic decoder with its key state (private key, AES, HMAC; keys derived from the first "
+        "decrypted metadata) as separate actions; TLC explores every interleaving of production and decoding for four key "
+        "variants and checks that what was yielded is exactly the declarative projection Expect(variant, wire prefix), that "
+        "unrelated requests end in ValueError without changing the decoder, and monotonicity. Every wire sequence of the dumped "
+        "graph is produced by the REAL HttpBeaconClient (httpx replaced in-process) against an independent peer (own RSA, "
+        "AES-CBC, HMAC, transforms, HTTP rendering) under five configurations, and the raw bytes are decoded message by message "
+        "by a fresh C2Http per key variant; metadata, task and callback contents and ValueErrors are compared with the model.",
+        note="Trusted: TLC, Session.tla, the harness peer (ref/transform.py cross-checked in C04, RSA by pow, CBC from the raw AES block "
+        "function, hashlib). One callback per POST (multi-packet framing is C05).",
+        technique="TLA+ multi-process model (client, server, wire, decoder) checked by TLC; dumped behaviours replayed through the real client and decoder",
+        design="4/C07",
+    ),
 }
 
 NOT_YET = "check not built yet in this round; planned in DESIGN.md section 4"
